@@ -525,6 +525,7 @@ pub fn main(args: &[String], kind: &str) -> i32 {
 		let mut case = hist::gen_case(&mut rng, "c02");
 		case.steps.retain(|s| !matches!(s, Step::Reopen));
 		hist::canonicalise(&mut case);
+		crate::util::watch_begin(&out, &hist::case_tokens(&case));
 		let dir = root.join("db");
 		let img_root = root.join("img");
 		let _ = std::fs::remove_dir_all(&dir);
@@ -767,6 +768,7 @@ pub fn main(args: &[String], kind: &str) -> i32 {
 				Ok(Ok(())) => (),
 			}
 		}
+		crate::util::watch_end();
 		match verdict {
 			Ok(()) => oracle.push_str("ok\n"),
 			Err(e) => oracle.push_str(&format!("FAIL {e}\n")),
